@@ -329,3 +329,33 @@ package transport
 //@   ensures Z(t.streamQuota) == Z(old(t.streamQuota)) + Z(*maxStreams) - Z(old(t.maxConcurrentStreams))
 //@   ensures t.maxConcurrentStreams == *maxStreams && t.waitingStreams == old(t.waitingStreams)
 //@   ensures implies(Z(*maxStreams) > Z(old(t.maxConcurrentStreams)) && t.waitingStreams > 0, ncalls("close") == 1 && fresh(t.streamsQuotaAvailable))
+
+// ---- C17: the per-stream write quota and its wake-up token -------------------------------------------
+//
+// A writer blocks in get() exactly while the quota is <= 0 and is woken by a
+// token in the capacity-1 channel ch. realReplenish must leave a token whenever
+// it takes the quota from <= 0 to > 0 (otherwise a blocked writer sleeps with
+// quota available), and only then.
+
+//@ func (*writeQuota).init
+//@   prop C17
+//@   modifies w.quota, w.ch, w.done, w.replenish
+//@   requires w != nil
+//@   ensures w.quota == sz && cap(w.ch) == 1 && len(w.ch) == 0 && fresh(w.ch)
+
+//@ func (*writeQuota).realReplenish
+//@   prop C17
+//@   requires w != nil && w.ch != nil && cap(w.ch) == 1 && 0 <= len(w.ch) && len(w.ch) <= 1
+//@   ensures w.quota == old(w.quota) + int32(n)
+//@   ensures implies(old(w.quota) <= 0 && w.quota > 0, len(w.ch) == 1)
+//@   ensures implies(!(old(w.quota) <= 0 && w.quota > 0), len(w.ch) == old(len(w.ch)))
+
+// get: quota is taken (once, exactly sz) only after the quota was seen positive;
+// when the stream is done nothing is taken.
+//@ func (*writeQuota).get
+//@   prop C17
+//@   requires w != nil
+//@   loop 1 invariant ncalls("AddInt32") == 0
+//@   assert at call AddInt32#1 lastret("LoadInt32") > 0 && arg1 == -sz
+//@   assert at return 1 result == nil && ncalls("AddInt32") == 1
+//@   assert at return 2 result == errStreamDone && ncalls("AddInt32") == 0
